@@ -230,7 +230,20 @@ class PGen(cimgen.Gen):
         return self._p(s)
 
     def host(self):
+        if self.r.random() < 0.06:
+            return ''                   # an empty host is not None
         return self._p(cimgen.Gen.host(self))
+
+    def namespace(self):
+        if self.r.random() < 0.05:
+            return self.r.choice(['', '/', '//'])
+        return cimgen.Gen.namespace(self)
+
+    def atom(self, ty):
+        import pywbem
+        if ty == 'char16' and self.poison and self.r.random() < 3 * self.poison:
+            return pywbem.Char16(self.r.choice(ILLEGAL))      # a str subclass holding a non-XML character
+        return cimgen.Gen.atom(self, ty)
 
 
 def has_illegal(s):
@@ -324,14 +337,57 @@ def obj_case(o):
     return {'type': type(o).__name__, 'repr': repr(o)[:3000], 'pickle': pickled(o)}
 
 
-def near_miss_objects(rng, n):
+BAD_TYPES = ['String', 'UINT8', 'DateTime', 'Boolean', 'Real32', 'CHAR16', 'uint8 ', ' string', 'int', 'uint', 'object',
+             'instance', 'Reference', '', 'uint128', 'string\n']
+
+
+def bad_type_objects(rng, g):
+    """objects with a mis-cased or otherwise invalid CIM type name and value None: whichever of them a constructor
+    accepts must still be encoded validly or refused by tocimxml()"""
+    import pywbem
+    t = rng.choice(BAD_TYPES)
+    out = []
+    makers = [
+        lambda: pywbem.CIMProperty(g.name('P'), None, type=t),
+        lambda: pywbem.CIMProperty(g.name('P'), None, type=t, is_array=True),
+        lambda: pywbem.CIMParameter(g.name('A'), t),
+        lambda: pywbem.CIMParameter(g.name('A'), t, is_array=True, value=None),
+        lambda: pywbem.CIMQualifier(g.name('Q'), None, type=t),
+        lambda: pywbem.CIMQualifierDeclaration(g.name('Q'), t),
+        lambda: pywbem.CIMMethod(g.name('M'), return_type=t),
+    ]
+    for mk in rng.sample(makers, 3):
+        try:
+            o = mk()
+        except Exception:  # noqa: the constructor refuses the type name: the documented outcome
+            continue
+        out.append(o)
+        # ... and inside the objects that operations send
+        try:
+            if isinstance(o, pywbem.CIMProperty):
+                out.append(pywbem.CIMInstance(g.name('C'), properties=[o]))
+                out.append(pywbem.CIMClass(g.name('C'), properties=[o]))
+            elif isinstance(o, pywbem.CIMParameter):
+                out.append(pywbem.CIMClass(g.name('C'), methods=[pywbem.CIMMethod('m', 'uint8', parameters=[o])]))
+                out.append(('pv', o))
+            elif isinstance(o, pywbem.CIMQualifier):
+                out.append(pywbem.CIMClass(g.name('C'), qualifiers=[o]))
+            elif isinstance(o, pywbem.CIMMethod):
+                out.append(pywbem.CIMClass(g.name('C'), methods=[o]))
+        except Exception:  # noqa
+            pass
+    return out
+
+
+def near_miss_objects(rng, n, counts=None):
     """objects at the edge of what has a CIM-XML representation"""
     import pywbem
     g = PGen(rng)
     out = []
     for i in range(n):
         k = rng.choice(['scope_odd', 'scope_any_false', 'scope_dup', 'refarray_prop', 'keyless', 'nonekey', 'host_only',
-                        'emb_obj', 'arraysize', 'empty_names', 'param_value'])
+                        'emb_obj', 'arraysize', 'empty_names', 'param_value', 'empty_host', 'empty_host', 'empty_strings',
+                        'bad_type', 'bad_type', 'bad_type'])
         try:
             if k == 'scope_odd':
                 out.append(pywbem.CIMQualifierDeclaration(g.name('Q'), 'string', scopes={rng.choice(['foo', 'Classs', 'a-b', 'x.y']): True}))
@@ -357,10 +413,33 @@ def near_miss_objects(rng, n):
             elif k == 'empty_names':
                 out.append(pywbem.CIMInstance('', properties=[pywbem.CIMProperty('', 'v')],
                                               path=pywbem.CIMInstanceName('', {'': ''}, namespace='a//b')))
+            elif k == 'empty_host':
+                ns = rng.choice(['', 'a', 'root/x', '/'])
+                path = pywbem.CIMInstanceName(g.name('C'), {'k': g.atom(rng.choice(cimgen.TYPES))}, host='', namespace=ns)
+                out.append(rng.choice([path, pywbem.CIMInstance(g.name('C'), path=path),
+                                       pywbem.CIMClassName(g.name('C'), host='', namespace=ns),
+                                       pywbem.CIMProperty(g.name('P'), path, type='reference'),
+                                       pywbem.CIMInstanceName(g.name('C'), {'r': path}, host=rng.choice(['', None, 'h']),
+                                                              namespace=rng.choice([None, '', 'n']))]))
+            elif k == 'empty_strings':
+                out.append(rng.choice([
+                    lambda: pywbem.CIMProperty(g.name('P'), 'v', class_origin='', propagated=False),
+                    lambda: pywbem.CIMProperty(g.name('P'), None, type='reference', reference_class=''),
+                    lambda: pywbem.CIMClass(g.name('C'), superclass='', properties=[pywbem.CIMProperty('p', '')]),
+                    lambda: pywbem.CIMMethod(g.name('M'), 'uint8', class_origin='',
+                                             parameters=[pywbem.CIMParameter('a', 'reference', reference_class='')]),
+                    lambda: pywbem.CIMInstance(g.name('C'), properties={'p': pywbem.CIMProperty('p', '', embedded_object=None)}),
+                    lambda: pywbem.CIMQualifier(g.name('Q'), '', type='string'),
+                    lambda: pywbem.CIMQualifierDeclaration(g.name('Q'), 'string', value='', scopes={}),
+                ])())
+            elif k == 'bad_type':
+                out += bad_type_objects(rng, g)
             else:
                 out.append(('pv', g.parameter(as_value=True)))
-        except Exception:  # noqa: constructor refuses: nothing to encode
-            pass
+        except Exception as e:  # noqa: constructor refuses: nothing to encode
+            if counts is not None:
+                counts['gen:near_miss_refused_by_constructor:%s:%s' % (k, type(e).__name__)] = \
+                    counts.get('gen:near_miss_refused_by_constructor:%s:%s' % (k, type(e).__name__), 0) + 1
     return out
 
 
@@ -404,7 +483,8 @@ def part_objects(run, n, n_poison, n_near):
             objs.append(gp.any())
         except Exception as e:  # a constructor refused the poisoned string
             run.count('gen:poisoned_rejected_by_constructor:' + type(e).__name__)
-    objs += near_miss_objects(run.rng, n_near)
+    objs += near_miss_objects(run.rng, n_near, run.distribution)
+    objs += poison_kind_objects(run)
     reqs, meta = [], []
     for o in objs:
         real = object_outcome(o)
@@ -804,9 +884,42 @@ def key_reprs(path, table):
             table.append([kind, cimproto.bits(v), cimproto.cps(txt)])
 
 
+def build_model(name, dn, args, kwargs):
+    """the driver request that mirrors one operation call, or None (Iter...() methods, values the protocol cannot carry)"""
+    import pywbem
+    T = cimproto.Tables()
+    try:
+        dnn = pywbem.WBEMConnection('http://x', default_namespace=dn).default_namespace
+        if name == 'InvokeMethod':
+            method, obj, params = args
+            mps = []
+            for p in params or []:
+                if isinstance(p, pywbem.CIMParameter):
+                    mps.append({'k': 'cimparam', 'name': cimproto.cps(p.name), 'ty': cimproto.cps(p.type),
+                                'val': pval_json(p.value, T), 'emb': cimproto.ocps(p.embedded_object)})
+                else:
+                    mps.append({'k': 'tuple', 'name': cimproto.cps(p[0]), 'val': pval_json(p[1], T)})
+            for k, v in kwargs.items():
+                mps.append({'k': 'tuple', 'name': cimproto.cps(k), 'val': pval_json(v, T)})
+            kr = []
+            key_reprs(obj, kr)
+            model = {'op': 'invoke', 'dn': cimproto.cps(dnn), 'method': arg_json(method, T), 'obj': arg_json(obj, T),
+                     'params': mps, 'kr': kr}
+        elif name == 'ExportIndication':
+            model = {'op': 'export', 'arg': arg_json(kwargs['NewIndication'], T)}
+        elif name.startswith('Iter'):
+            return None
+        else:
+            a = {k: arg_json(v, T) for k, v in kwargs.items() if k != 'namespace'}
+            model = {'op': 'imc', 'name': name, 'dn': cimproto.cps(dnn), 'ns': arg_json(kwargs.get('namespace'), T), 'args': a}
+        model['codec'] = T.to_json()
+        return model
+    except (TypeError, ValueError):
+        return None            # a value the protocol cannot carry (e.g. a float in a list): oracle only
+
+
 def gen_request(run, g, gp, ops, opnames, poison):
     """one operation call: (name, dn, args tuple, kwargs, model request or None)"""
-    import pywbem
     rng = run.rng
     name = rng.choice(opnames)
     gg = gp if poison else g
@@ -821,56 +934,149 @@ def gen_request(run, g, gp, ops, opnames, poison):
         if miss:
             run.count('req:near_miss_arg')
         kwargs[p] = v
-    T = cimproto.Tables()
-    model = None
+    args = ()
     if name == 'InvokeMethod':
         params = []
         for _ in range(rng.choice([0, 1, 1, 2, 3])):
             if rng.random() < 0.3:
-                p = gg.parameter(as_value=True)
-                params.append(p)
+                params.append(gg.parameter(as_value=True))
             else:
                 params.append((gg.name('a'), gen_method_value(gg, rng)))
         extra = {}
         if rng.random() < 0.3:
             extra[g.name('kw')] = gen_method_value(gg, rng)
-        kwargs['Params'] = params
-        mps = []
-        try:
-            for p in params:
-                if isinstance(p, pywbem.CIMParameter):
-                    mps.append({'k': 'cimparam', 'name': cimproto.cps(p.name), 'ty': cimproto.cps(p.type),
-                                'val': pval_json(p.value, T), 'emb': cimproto.ocps(p.embedded_object)})
-                else:
-                    mps.append({'k': 'tuple', 'name': cimproto.cps(p[0]), 'val': pval_json(p[1], T)})
-            for k, v in extra.items():
-                mps.append({'k': 'tuple', 'name': cimproto.cps(k), 'val': pval_json(v, T)})
-            kr = []
-            key_reprs(kwargs['ObjectName'], kr)
-            model = {'op': 'invoke', 'dn': cimproto.cps(pywbem.WBEMConnection('http://x', default_namespace=dn).default_namespace),
-                     'method': arg_json(kwargs['MethodName'], T), 'obj': arg_json(kwargs['ObjectName'], T), 'params': mps,
-                     'kr': kr}
-        except TypeError:
-            model = None            # a value the protocol cannot carry (e.g. a float in a list): oracle only
-        args = (kwargs.pop('MethodName'), kwargs.pop('ObjectName'), kwargs.pop('Params'))
+        args = (kwargs.pop('MethodName'), kwargs.pop('ObjectName'), params)
         kwargs = extra
-        if model is not None:
-            model['codec'] = T.to_json()
-        return name, dn, args, kwargs, model
-    args = ()
+    return name, dn, args, kwargs, build_model(name, dn, args, kwargs)
+
+
+# ---- systematic streams: every value KIND with every character XML cannot carry; objects from the near-miss stream
+#      inside the requests that send them
+
+def _try(run, what, f):
     try:
-        dnn = pywbem.WBEMConnection('http://x', default_namespace=dn).default_namespace
-        if name == 'ExportIndication':
-            model = {'op': 'export', 'arg': arg_json(kwargs['NewIndication'], T)}
-        elif not name.startswith('Iter'):
-            a = {k: arg_json(v, T) for k, v in kwargs.items() if k != 'namespace'}
-            model = {'op': 'imc', 'name': name, 'dn': cimproto.cps(dnn),
-                     'ns': arg_json(kwargs.get('namespace'), T), 'args': a}
-        if model is not None:
-            model['codec'] = T.to_json()
-    except TypeError:
-        model = None
-    return name, dn, args, kwargs, model
+        return f()
+    except Exception as e:  # noqa: a constructor refuses: the documented local failure
+        run.count('gen:%s_refused_by_constructor:%s' % (what, type(e).__name__))
+        return None
+
+
+def poison_kind_objects(run):
+    """for each character XML 1.0 cannot represent: one object per place a string can sit in (str and the str subclass
+    Char16, names, hosts, namespaces, class origins, keys, qualifier and property values, embedded objects)"""
+    import pywbem
+    out = []
+    for c in ILLEGAL:
+        s = 'a<' + c + 'b'
+        ch = pywbem.Char16(c)
+        makers = [
+            lambda: pywbem.CIMProperty('p', ch),
+            lambda: pywbem.CIMProperty('p', [pywbem.Char16('x'), ch], type='char16'),
+            lambda: pywbem.CIMProperty('p', s),
+            lambda: pywbem.CIMProperty('p' + c, 'v'),
+            lambda: pywbem.CIMProperty('p', 'v', class_origin='C' + c),
+            lambda: pywbem.CIMProperty('p', None, type='reference', reference_class='C' + c),
+            lambda: pywbem.CIMProperty('p', pywbem.CIMInstance('E', properties={'x': s})),
+            lambda: pywbem.CIMInstanceName('C', {'k': ch}),
+            lambda: pywbem.CIMInstanceName('C', {'k': s}),
+            lambda: pywbem.CIMInstanceName('C', {'k' + c: 1}),
+            lambda: pywbem.CIMInstanceName('C' + c, {'k': 1}),
+            lambda: pywbem.CIMInstanceName('C', {'k': 1}, namespace='n' + c),
+            lambda: pywbem.CIMInstanceName('C', {'k': 1}, namespace='n', host='h' + c),
+            lambda: pywbem.CIMInstanceName('C', {'r': pywbem.CIMInstanceName('D', {'k': ch})}),
+            lambda: pywbem.CIMClassName('C' + c),
+            lambda: pywbem.CIMClassName('C', namespace='n', host='h' + c),
+            lambda: pywbem.CIMQualifier('q', ch),
+            lambda: pywbem.CIMQualifier('q', [s], type='string'),
+            lambda: pywbem.CIMQualifier('q' + c, True),
+            lambda: pywbem.CIMQualifierDeclaration('q', 'char16', value=ch),
+            lambda: pywbem.CIMQualifierDeclaration('q' + c, 'string'),
+            lambda: pywbem.CIMClass('C', superclass='S' + c),
+            lambda: pywbem.CIMClass('C', methods=[pywbem.CIMMethod('m' + c, 'uint8')]),
+            lambda: pywbem.CIMMethod('m', 'uint8', parameters=[pywbem.CIMParameter('a' + c, 'string')]),
+            lambda: pywbem.CIMInstance('C' + c),
+            lambda: pywbem.CIMInstance('C', properties={'p': ch}, path=pywbem.CIMInstanceName('C', {'p': ch})),
+            lambda: ('pv', pywbem.CIMParameter('a', 'char16', value=ch)),
+            lambda: ('pv', pywbem.CIMParameter('a', 'char16', is_array=True, value=[ch])),
+        ]
+        for mk in makers:
+            o = _try(run, 'poison_kind', mk)
+            if o is not None:
+                out.append(o)
+    return out
+
+
+def poison_kind_requests(run):
+    """the same for the arguments of operations"""
+    import pywbem
+    out = []
+    for c in ILLEGAL:
+        s = 'a<' + c + 'b'
+        ch = pywbem.Char16(c)
+        calls = [
+            ('InvokeMethod', ('m', 'C', [('a', ch)]), {}),
+            ('InvokeMethod', ('m', 'C', [('a', [pywbem.Char16('x'), ch])]), {}),
+            ('InvokeMethod', ('m', 'C', []), {'kw': ch}),
+            ('InvokeMethod', ('m', 'C', [pywbem.CIMParameter('a', 'char16', value=ch)]), {}),
+            ('InvokeMethod', ('m', 'C', [('a', s)]), {}),
+            ('InvokeMethod', ('m' + c, 'C', []), {}),
+            ('InvokeMethod', ('m', 'C' + c, []), {}),
+            ('InvokeMethod', ('m', pywbem.CIMInstanceName('C', {'k': ch}), []), {}),
+            ('InvokeMethod', ('m', 'C', [('a' + c, 'v')]), {}),
+            ('GetInstance', (), {'InstanceName': pywbem.CIMInstanceName('C', {'k': ch})}),
+            ('GetInstance', (), {'InstanceName': pywbem.CIMInstanceName('C', {'k': 1}), 'PropertyList': ['p', 'q' + c]}),
+            ('GetInstance', (), {'InstanceName': pywbem.CIMInstanceName('C', {'k': 1}, namespace='n' + c)}),
+            ('EnumerateInstances', (), {'ClassName': 'C' + c}),
+            ('EnumerateInstances', (), {'ClassName': 'C', 'namespace': 'n' + c}),
+            ('EnumerateInstances', (), {'ClassName': 'C', 'PropertyList': 'p' + c}),
+            ('Associators', (), {'ObjectName': 'C', 'Role': 'r' + c}),
+            ('Associators', (), {'ObjectName': 'C', 'AssocClass': pywbem.CIMClassName('A' + c)}),
+            ('ExecQuery', (), {'QueryLanguage': 'WQL', 'Query': 'select * from C where a<"' + c + '"'}),
+            ('ExecQuery', (), {'QueryLanguage': 'W' + c, 'Query': 'q'}),
+            ('OpenEnumerateInstances', (), {'ClassName': 'C', 'FilterQuery': s, 'FilterQueryLanguage': 'DMTF:FQL'}),
+            ('PullInstancesWithPath', (), {'context': ('ctx' + c, 'n'), 'MaxObjectCount': 1}),
+            ('CloseEnumeration', (), {'context': ('ctx', 'n' + c)}),
+            ('GetQualifier', (), {'QualifierName': 'Q' + c}),
+            ('CreateInstance', (), {'NewInstance': pywbem.CIMInstance('C', properties={'p': ch})}),
+            ('ModifyInstance', (), {'ModifiedInstance': pywbem.CIMInstance(
+                'C', properties={'p': [ch]}, path=pywbem.CIMInstanceName('C', {'k': 1}))}),
+            ('ExportIndication', (), {'NewIndication': pywbem.CIMInstance('C', properties={'p': ch})}),
+            ('IterEnumerateInstances', (), {'ClassName': 'C', 'PropertyList': ['p' + c]}),
+        ]
+        for name, args, kwargs in calls:
+            out.append((name, 'root/cimv2', args, kwargs))
+    return out
+
+
+def wrap_requests(run, objs):
+    """objects of the near-miss streams inside the operations that send them"""
+    import pywbem
+    out = []
+    for o in objs:
+        if isinstance(o, tuple):
+            continue
+        if isinstance(o, pywbem.CIMClass):
+            out.append(('CreateClass', 'root/cimv2', (), {'NewClass': o}))
+            out.append(('ModifyClass', 'root/cimv2', (), {'ModifiedClass': o}))
+        elif isinstance(o, pywbem.CIMInstance):
+            out.append(('CreateInstance', 'root/cimv2', (), {'NewInstance': o}))
+            m = _try(run, 'wrap', lambda: pywbem.CIMInstance(o.classname, properties=o.properties, qualifiers=o.qualifiers,
+                                                             path=o.path or pywbem.CIMInstanceName(o.classname or 'C', {'k': 1})))
+            if m is not None:
+                out.append(('ModifyInstance', 'root/cimv2', (), {'ModifiedInstance': m}))
+            out.append(('ExportIndication', 'root/cimv2', (), {'NewIndication': o}))
+        elif isinstance(o, pywbem.CIMQualifierDeclaration):
+            out.append(('SetQualifier', 'root/cimv2', (), {'QualifierDeclaration': o}))
+        elif isinstance(o, pywbem.CIMInstanceName):
+            out.append(('GetInstance', 'root/cimv2', (), {'InstanceName': o}))
+            out.append(('InvokeMethod', 'root/cimv2', ('m', o, []), {}))
+            out.append(('References', 'root/cimv2', (), {'ObjectName': o}))
+        elif isinstance(o, pywbem.CIMClassName):
+            out.append(('GetClass', 'root/cimv2', (), {'ClassName': o}))
+            out.append(('InvokeMethod', 'root/cimv2', ('m', o, []), {}))
+        elif isinstance(o, pywbem.CIMParameter):
+            out.append(('InvokeMethod', 'root/cimv2', ('m', 'C', [o]), {}))
+    return out
 
 
 def parse_body(body):
@@ -1059,6 +1265,10 @@ def part_requests(run, n, n_poison):
             todo.append(gen_request(run, g, gp, ops, opnames, poison) + (poison,))
         except Exception as e:  # generator produced something a pywbem constructor refuses
             run.count('gen:request_rejected:' + type(e).__name__)
+    extra = poison_kind_requests(run) + wrap_requests(run, near_miss_objects(rng, n // 12 + 40) + poison_kind_objects(run)[::7])
+    for name, dn, args, kwargs in extra:
+        todo.append((name, dn, args, kwargs, build_model(name, dn, args, kwargs), False))
+    run.count('req:systematic', len(extra))
     reqs, idx = [], []
     for i, t in enumerate(todo):
         if t[4] is not None:
@@ -1123,6 +1333,102 @@ def part_requests(run, n, n_poison):
                              'request: model raises, code sends')
             elif ans.get('exc') != real.get('exc'):
                 run.disagree(case, ans, real, 'request: exception class')
+
+
+# ----------------------------------------------------------------------------- part 3b: plain values, CDATA mode (oracle only)
+
+def part_values(run, n):
+    """tocimxmlstr() of CIM data type values and lists of them (no object around): oracle only"""
+    import pywbem
+    rng = run.rng
+    gp = PGen(rng, poison=0.1)
+    vals = []
+    for c in ILLEGAL:
+        vals += [pywbem.Char16(c), [pywbem.Char16('a'), pywbem.Char16(c)], 'x<' + c, ['ok', 'y&' + c], (c,)]
+    for _ in range(n):
+        ty = rng.choice(cimgen.TYPES)
+        vals.append(gp.atom(ty) if rng.random() < 0.5 else [gp.atom(ty) for _ in range(rng.choice([0, 1, 3]))] +
+                    ([None] if rng.random() < 0.2 else []))
+    for v in vals:
+        case = {'type': 'value', 'repr': repr(v)[:500], 'pickle': pickled(v)}
+        try:
+            text = pywbem.tocimxmlstr(v)
+        except Exception as e:
+            run.count('values:local_exception:' + type(e).__name__)
+            run.case(['value', type(e).__name__], nontrivial=False)
+            continue
+        run.count('values:emitted')
+        run.case(['value', text[:200]], nontrivial=True)
+        oracle_document(run, 'tocimxmlstr(value)', text, case, features(v), {'obj': 'value'})
+
+
+def part_cdata(run, n_obj, n_req):
+    """the documented module switch pywbem._cim_xml._CDATA_ESCAPING = True (CDATA sections instead of entity
+    references): objects, values and operation calls through the same oracle.  Not modelled: oracle only."""
+    import pywbem
+    from pywbem import _cim_xml
+    rng = run.rng
+    old = _cim_xml._CDATA_ESCAPING
+    _cim_xml._CDATA_ESCAPING = True
+    try:
+        g = PGen(rng)
+        gp = PGen(rng, poison=0.15)
+        objs = []
+        for c in ILLEGAL:
+            for s in ('a<b' + c, c + '&', 'x]]>' + c + '<', '>' + c + ']]>'):
+                objs += [pywbem.CIMProperty('p', s), pywbem.CIMQualifier('q', [s, 'ok<'], type='string'),
+                         pywbem.CIMInstance('C', properties={'p': pywbem.CIMInstance('E', properties={'x': s})}), ('v', s),
+                         ('v', [s])]
+        for i in range(n_obj):
+            o = _try(run, 'cdata', (gp if i % 2 else g).any)
+            if o is not None:
+                objs.append(o)
+        for o in objs:
+            if isinstance(o, tuple) and o[0] == 'v':
+                case = {'type': 'value', 'cdata': True, 'repr': repr(o[1])[:500], 'pickle': pickled(o[1])}
+                try:
+                    text = pywbem.tocimxmlstr(o[1])
+                except Exception as e:
+                    run.count('cdata:local_exception:' + type(e).__name__)
+                    continue
+                oracle_document(run, 'tocimxmlstr(value)', text, case, features(o[1]), {'obj': 'value', 'cdata': True})
+                continue
+            real = object_outcome(o)
+            po = o[1] if isinstance(o, tuple) else o
+            case = obj_case(po)
+            case['cdata'] = True
+            if 'text' in real:
+                run.count('cdata:objects_emitted')
+                run.case(['cdata', real['text'][:200]], nontrivial='CDATA' in real['text'])
+                oracle_document(run, 'tocimxmlstr', real['text'], case, features(po), {'obj': type(po).__name__, 'cdata': True})
+            else:
+                run.count('cdata:local_exception:' + real['exc'])
+        ops = op_table()
+        calls = []
+        for c in ILLEGAL[:6]:
+            calls += [('InvokeMethod', 'root/cimv2', ('m', 'C', [('a', 'v<' + c)]), {}),
+                      ('ExecQuery', 'root/cimv2', (), {'QueryLanguage': 'WQL', 'Query': 'a<b' + c}),
+                      ('CreateInstance', 'root/cimv2', (), {'NewInstance': pywbem.CIMInstance('C', properties={'p': '&' + c})}),
+                      ('EnumerateInstances', 'root/cimv2', (), {'ClassName': 'C', 'PropertyList': ['p>' + c]})]
+        for i in range(n_req):
+            r = _try(run, 'cdata_request', lambda: gen_request(run, g, gp, ops, sorted(ops), i % 2 == 1))
+            if r is not None:
+                calls.append(r[:4])
+        for name, dn, args, kwargs in calls:
+            pull = rng.choice([None, True, False]) if name.startswith('Iter') else False
+            real = call_real(name, dn, args, kwargs, pull)
+            case = req_case(name, dn, args, kwargs, pull)
+            case['cdata'] = True
+            if 'body' in real:
+                run.count('cdata:requests_sent')
+                run.case(['cdata', name, real['body'][40:300].decode('utf-8', 'replace')], nontrivial=b'CDATA' in real['body'])
+                oracle_request(run, name, real, case, features([list(args), kwargs, dn]))
+            else:
+                run.count('cdata:request_local_exception:%s' % real.get('exc'))
+                if real.get('exc') is None or real.get('after_send'):
+                    run.violate({'kind': 'no_request_no_exception', 'op': name, 'cdata': True}, case, real)
+    finally:
+        _cim_xml._CDATA_ESCAPING = old
 
 
 # ----------------------------------------------------------------------------- part 4: listener
@@ -1263,7 +1569,11 @@ def run(run):
                 'insert text) of the real trees: validTree vs lxml; content models: matchRe vs regexes from lxml\'s DTD parse; '
                 '(3) every public operation method of WBEMConnection with generated arguments (5% near-miss per argument) '
                 'against a capturing transport adapter: outcome class, headers, body bytes; (4) export requests to a real '
-                'WBEMListener on a loopback port: response bytes.  non-trivial = a document was emitted; distinct by text')
+                'WBEMListener on a loopback port: response bytes; (5) oracle only: tocimxmlstr() of plain CIM values, and objects / '
+                'values / operation calls with pywbem._cim_xml._CDATA_ESCAPING = True; systematic streams put every character '
+                'XML cannot carry into every value kind (str, Char16, names, hosts, namespaces, keys, property lists, query '
+                'strings) and send near-miss objects (empty strings next to None, mis-cased type names) through the '
+                'operations.  non-trivial = a document was emitted; distinct by text')
     run.assumptions += [
         'Codec / KeyCodec hypothesis records (float printing, CIMDateTime) instantiated by tables computed with Python for '
         'the inputs of this run',
@@ -1276,6 +1586,8 @@ def run(run):
     part_mutants(run, trees, 40000 if th else 5000)
     part_content_models(run, 300 if th else 60)
     part_requests(run, 40000 if th else 5000, 8000 if th else 1000)
+    part_values(run, 3000 if th else 400)
+    part_cdata(run, 6000 if th else 800, 6000 if th else 800)
     part_listener(run, 1500 if th else 200)
 
 
@@ -1326,6 +1638,19 @@ def _ns():
 
 def replay(payload):
     case = payload['case']
+    if case.get('cdata'):
+        from pywbem import _cim_xml
+        old = _cim_xml._CDATA_ESCAPING
+        _cim_xml._CDATA_ESCAPING = True
+        try:
+            return _replay(payload)
+        finally:
+            _cim_xml._CDATA_ESCAPING = old
+    return _replay(payload)
+
+
+def _replay(payload):
+    case = payload['case']
     r = common.Run(PROP, 'quick', 0)
     try:
         if 'listener_request' in case:
@@ -1353,6 +1678,14 @@ def replay(payload):
                 r.violate({'kind': 'no_request_no_exception', 'op': case['op']}, case, real)
             else:
                 return True, 'property C03 holds for this call: it fails locally with %s' % real['exc']
+        elif case.get('type') == 'value':
+            import pywbem
+            v = unpickled(case['pickle']) if case.get('pickle') else eval(case['repr'], _ns())  # noqa
+            try:
+                text = pywbem.tocimxmlstr(v)
+            except Exception as e:
+                return True, 'property C03 holds for this value: tocimxmlstr() fails locally with %s' % type(e).__name__
+            oracle_document(r, 'tocimxmlstr(value)', text, case, features(v), {'obj': 'value'})
         else:
             o = unpickled(case['pickle']) if case.get('pickle') else eval(case['repr'], _ns())  # noqa
             real = object_outcome(('pv', o) if case.get('as_value') else o)
